@@ -156,6 +156,17 @@ def main():
         pairs.append(("p.patch", (atext + btext).encode(), "a.go", src.encode()))
         metas.append({"part": "after-earlier-change", "patch_form": an + " / then guard " + bl + (" on qux" if bpath_is_other else " on foo"), "file_form": fl,
                       "patch_pkg": None, "file_pkg": "p", "on": "context", "layout": layout, "expect": None, "expect_steps": (a_applies, expB)})
+    # (5) each change has its own metavariables: a name declared by an EARLIER change is a literal name in a later one
+    for (fl, fnames), decl_kind, same_name in itertools.product(FFORMS[:8], ("identifier", "expression"), (False, True)):
+        k += 1
+        hdr = "@ c @\n" if same_name else "@@\n"
+        first = hdr + "var bar %s\n@@\n-first(bar)\n+firstDone(bar)\n\n" % decl_kind
+        second = hdr + "var x expression\n@@\n import bar \"%s\"\n\n-mark(x)\n+marked(x)\n" % PATH
+        src = make_file("p", fnames, [], LAYOUT[k % 4], "func h() {\n\tfirst(q)\n\tmark(3)\n}\n")
+        pairs.append(("p.patch", (first + second).encode(), "a.go", src.encode()))
+        metas.append({"part": "own-metavariables", "patch_form": "literal bar after 'var bar %s'%s" % (decl_kind, " (same change name)" if same_name else ""),
+                      "file_form": fl, "patch_pkg": None, "file_pkg": "p", "on": "context", "layout": LAYOUT[k % 4], "expect": None,
+                      "expect_steps": (decl_kind == "expression" or True, ref_import("bar", fnames))})
     # part 4 runs one case at a time: state kept across changes inside /repo must not be masked by concurrent cases
     res = enginecorr.run(pairs[:n_parallel]) + enginecorr.run(pairs[n_parallel:], serial=True)
     for k, (pair, m, o) in enumerate(zip(pairs, metas, res)):
